@@ -41,6 +41,9 @@ var c14Maps = map[string]bool{"profiles": true, "devices": true, "dedicatedIPToD
 const pdb = "profiledb.(*Default)."
 
 func runC14(c *an.Ctx) {
+	if n := sharedLoopCompleteness(c, "C14-R9", "backendpb.", "profiledb"); n > 0 {
+		c.Ok("C14-R9", "element-wise loops", token.NoPos, "%d range loops of the profile conversions examined: no element ends a conversion early", n)
+	}
 	c.Floor("C14-R1", 30)
 	c.Floor("C14-R2", 14)
 	c.Floor("C14-R3", 6)
